@@ -197,3 +197,5 @@ theorem xt_choice (rD rE aD aE : Alts) (x : Bool) (hcr : CompatAlts rD rE) (hca 
         simp at hnone
 
 end Asn1.Ext.PerX
+
+#print axioms Asn1.Ext.PerX.xt_choice
